@@ -240,7 +240,7 @@ claim("C07", "exploration", "TLC enumeration of the legal lexical layouts (WaLay
       "WaLayout.tla states which gap fills (spaces, tabs, line breaks, blank lines, block comments, //, # and 注: line comments, semicolons, missing final newline) leave the token "
       "sequence of a construct unchanged; TLC enumerates every legal layout with one (quick) or two (thorough) perturbed gaps of 15 .wa and 6 .wz constructs. Each text goes through "
       "api.FormatCode twice; input and output are parsed with the real parser and must have equal position-free AST dumps (import specs compared as a sorted list), equal comment "
-      "multisets, equal second-pass output, and - for the plain construct, every one-comment layout and a slice of the rest - equal compiled WAT (data segments and i32 constants "
+      "multisets, equal second-pass output, and - for the plain construct, a third of the one-comment layouts and a slice of the rest - equal compiled WAT (data segments and i32 constants "
       "masked: the compiler embeds source positions). The repository's own 400 .wa/.wz sources are a second input set.",
       "Role G: level exploration. A layout the model calls legal that the parser rejects makes the run inconclusive (exit 2). Open known findings: unsorted import groups compile to a "
       "different module after formatting; a line-ending comment inside `[ ]` of a slice type needs two passes.",
